@@ -39,6 +39,13 @@ SCHEMAS = {
     "s7": "proto seven\n// pending comment\nmessage H {\n    uint3 a = 1\n    // another pending comment\n    Nope b = 2\n}\n",
     "s8": "proto eight\n\nimport \"broken.bitproto\"\n\nmessage I {\n    bool a = 1\n}\n",
 }
+# a second directory: files with the SAME base names (and proto names) as s1 / s3 / shared but other contents -
+# anything remembered per file name or proto name instead of per file collides
+ALT = {
+    "alt/s1": SCHEMAS["s2"].replace("uint6 w = 3", "uint7 w = 3"),
+    "alt/s3": SCHEMAS["s3"],
+    "alt/shared": LIB.replace("int7 y = 2", "int9 y = 2\n    bool z = 3"),
+}
 BROKEN = "proto broken\n// comment before the failing statement\nmessage B {\n    message Deep {\n        uint0 x = 1\n    }\n}\n"
 
 EVENTS = [
@@ -46,6 +53,7 @@ EVENTS = [
     ("compile", "s3", "go", False), ("compile", "s4", "c", True), ("compile", "s1", "go", False), ("compile", "s5", "py", False),
     ("compile", "s6", "c", False), ("parse", "s2", None, False), ("lint", "s3", None, False), ("compile", "s4", "go", True),
     ("fail", "s7", "py", False), ("fail", "s8", "c", False),
+    ("compile", "alt/s1", "c", False), ("compile", "alt/s3", "c", False),
 ]
 
 
@@ -57,6 +65,10 @@ def write_schemas(d):
         f.write(LIB)
     with open(os.path.join(d, "broken.bitproto"), "w") as f:
         f.write(BROKEN)
+    os.makedirs(os.path.join(d, "alt"), exist_ok=True)
+    for n, t in ALT.items():
+        with open(os.path.join(d, n + ".bitproto"), "w") as f:
+            f.write(t)
 
 
 def hash_dir(d):
@@ -71,7 +83,7 @@ def hash_dir(d):
 def golden(d, ev, env_extra=None, cwd=None, path=None, outdir=None, quiet=True):
     """Fresh process: the real CLI."""
     _, s, lang, opt = ev
-    out = outdir or os.path.join(d, "golden_%s_%s_%s" % (s, lang, opt))
+    out = outdir or os.path.join(d, "golden_%s_%s_%s" % (s.replace("/", "_"), lang, opt))
     os.makedirs(out if os.path.isabs(out) else os.path.join(cwd or d, out), exist_ok=True)
     args = [sys.executable, "-m", "bitproto._main", lang, path or os.path.join(d, s + ".bitproto"), out]
     if quiet:
